@@ -6,6 +6,7 @@
 #include "LinearAlgebra/csr_matrix.h"
 #include "LinearAlgebra/diagonalSolver.h"
 #include "LinearAlgebra/sparseLUSolver.h"
+#include <omp.h>
 #include "LinearAlgebra/symmetricTridiagonalSolver.h"
 #include "LinearAlgebra/vector.h"
 
@@ -710,8 +711,17 @@ Value gen_pool(uint64_t seed, const std::string& tier)
         }
         ops.push(op);
     }
+    // copies of vectors above the library's parallel threshold (10 000 entries) run in a team: the calling program's
+    // thread count and a team shortfall (fewer threads delivered than asked for) must not change what is copied
+    p["T"] = g.chance(0.5) ? 1 : g.range(2, 7);
+    if (g.chance(0.15))
+        for (Value& op : ops.a)
+            if (op.at("op").as_str() == "construct" && g.chance(0.5)) {
+                op["kind"] = (int)K_VEC;
+                op["n"]    = g.range(10001, 12500);
+            }
     p["ops"] = ops;
-    p["sim"] = gen_sim(g, false);
+    p["sim"] = gen_sim(g, callers == 1);
     return p;
 }
 
@@ -853,6 +863,7 @@ void run_pool(const Value& plan, Result& r)
     pool.fails.resize(callers);
     {
         SimRun sr(plan.at("sim"), r);
+        omp_set_num_threads(plan.has("T") ? (int)plan.at("T").as_int(1) : 1);
         if (callers == 1)
             exec_owner(pool, plan, 0, 1);
         else {
